@@ -136,7 +136,7 @@ func (f *FactoryFunction) Create(expr string) (Token, error) {
 	body := fmt.Sprintf(
 		`r, err = %s; if err != nil { err = %s.Errorf("%%s: %%w", %s, err) }; return`,
 		callFn,
-		f.aliaser.Alias("fmt"),
+		absoluteAlias(f.aliaser, "fmt"),
 		exporter.MustExport(fmt.Sprintf("cannot execute %s", expr)),
 	)
 
